@@ -30,7 +30,7 @@ def REQUIRED(tier):  # noqa: N802
             "big_instances_judged": 20, "swap_long_permutations": 40,
             "sequences_with_identical_object_repeated": 100,
             "sequences_with_a_None_element": 100,
-            "dist[absabs+1]": 50,
+            "dist[absabs+1]": 50, "dist[mixedtypes]": 50,
             "ties_inside_horizon": 300, "beyond_horizon_entries": 1000,
             "swap_pairs": 518400 + 14400 + 576 + 36 + 4 + 1
             if tier == "quick" else 25_000_000}
@@ -175,6 +175,10 @@ DISTS = {
     # never zero, not even for an object and itself (the package's own
     # doctests use such a function): nothing may be merged
     "absabs+1": lambda a, b: abs(abs(a) - abs(b)) + 1,
+    # a look-up-table like function whose results are Python ints for some
+    # pairs (all pairs of the first object) and fractional floats for others
+    "mixedtypes": lambda a, b: abs(a - b) if (a % 5 == 0 or b % 5 == 0)
+    else (abs(a - b) / 2 + (0.25 if a != b else 0)),
 }
 
 
@@ -201,6 +205,9 @@ def gen_sequence(rng):
         vals = [int(rng.integers(0, span)) for _ in range(k)]
     elif dk == "absabs+1":
         vals = [int(rng.integers(-span, span + 1)) for _ in range(k)]
+    elif dk == "mixedtypes":
+        vals = [5 * int(rng.integers(0, 4))] + [
+            int(rng.integers(0, span + 8)) for _ in range(k - 1)]
     elif dk == "absfloat":
         vals = [float(rng.integers(0, span)) / 4.0 for _ in range(k)]
     else:
